@@ -446,6 +446,15 @@ class MsgFamily(Family):
             bd = GA2.encs(vals).hex() or "-"
             bump(stats, "alias_random_bodies")
             yield [f"!msg.alias {bd}", f"msg.from 15 {bd}", f"msg.from 17 00{bd if bd != '-' else ''}"]
+        # nesting up to, at and beyond the limit both directions must agree on (the writer accepts exactly what the reader
+        # accepts): every container kind, depths around the middle and the end of the range
+        for kind in ("o", "a", "m"):
+            for depth_ in (1, 31, 32, 33, 63, 64, 65, 66, 100, 126, 127, 128, 129, 130):
+                v = GA2.nest(kind, depth_)
+                bump(stats, "deep_nesting_messages")
+                yield [f"!msg.rt data/{GA2.texts([v])} {GM.u32(rng)} {GM.u32(rng)}",
+                       f"!msg.rt cmd/{GA2.btok(b'deep')}/{0:016x}/{GA2.text(('z',))}/{GA2.texts([v])} {GM.u32(rng)} {GM.u32(rng)}",
+                       f"msg.to data/{GA2.texts([v])}"]
         n = 2500 if tier == "quick" else 30000
         for _ in range(n):
             wf = not rng.chance(1, 6)
